@@ -1,0 +1,12 @@
+//go:build verif
+// +build verif
+
+package providers
+
+import "github.com/buzzfeed/sso/internal/pkg/singleflight"
+
+// VerifGroup exposes the coalescing group (verification harness only, build tag verif).
+func (p *SingleFlightProvider) VerifGroup() *singleflight.Group { return p.single }
+
+// VerifInner exposes the wrapped provider (verification harness only, build tag verif).
+func (p *SingleFlightProvider) VerifInner() Provider { return p.provider }
